@@ -184,6 +184,19 @@ def run(R):
                                       f'start = {render(e, "sugar")}\nX = "a" | "ba"\nignored " "\n',
                                       f'ignored Sp = " "\nstart = {render(e, "sugar")}\nX = "a" | "ba"\n'],
                   texts=[t.replace(',', ' ') for t in TX], structural=False)
+    # = : => in class fields (plain and let fields), rule definitions, let expressions and keyword arguments
+    seps3 = [':', '=', '=>']
+    descs = []
+    for e1 in seps3:
+        for e2 in seps3:
+            for e3 in seps3:
+                descs.append(f'class P {{\n    x {e1} "a"\n    let y {e2} "b"?\n    z {e3} /[ab]*/\n}}\nstart {e3} P\n')
+    add_group('definition-symbols', descs, texts=['ab', 'a', 'abab', '', 'ba', 'aab'], structural=True)
+    descs = []
+    for e1 in seps3:
+        for e2 in seps3:
+            descs.append(f'start = let n {e1} "a" in W(y {e2} "b", x {e1} n)\nW(x, y) {e2} [x, y]\n')
+    add_group('definition-symbols', descs, texts=['ab', 'a', 'abab', '', 'ba'], structural=True)
     # a bare expression versus `start = expr`, also when the expression BEGINS with inline Python (which is a statement
     # form of the grammar language as well)
     for e in ['`1` >> "a"', '`None` >> ("a" | "b")', '[`1`, "a"]', '"a" >> `1`', '`1`', '("a")', '"a" | "b"', '"a"* << "b"', '/[ab]+/ |> `len`',
